@@ -83,14 +83,12 @@ theorem partition (nd : Nat) (syms : List Sym) (l : Lists) (h : exitClass nd sym
     (l.categories nd).Perm (names (syms.filter (fun s => !s.isEmpty))) := by
   obtain ⟨_, rfl⟩ := exitClass_some h
   constructor
-  · simp [listsOf]
+  · simp only [listsOf, take_delays]
   · have h1 := (cats_perm (sortSyms syms)).map (·.name)
     have h2 := ((sortSyms_perm syms).filter (fun s => !s.isEmpty)).map (·.name)
-    have hd : ((List.range nd).map delayName ++ names (pick (sortSyms syms) .input)).drop nd
-        = names (pick (sortSyms syms) .input) := by
-      rw [List.drop_append_of_le_length (by simp)]; simp
     refine List.Perm.trans ?_ h2
-    simpa [Lists.categories, listsOf, names, hd] using h1
+    simp only [Lists.categories, listsOf, drop_delays]
+    simpa [names] using h1
 
 /-- **exactly one category.** With distinct symbol names (they are dictionary keys) no name
     occurs twice in the category lists: each variable is in exactly one list, exactly once. -/
@@ -101,8 +99,11 @@ theorem exactly_one (nd : Nat) (syms : List Sym) (l : Lists) (h : exitClass nd s
   exact List.Nodup.sublist (List.Sublist.map _ List.filter_sublist) hn
 
 example : ∃ l, exitClass 0 [⟨"p", ["parameter", "input"], "Real", 0, []⟩, ⟨"x", ["state"], "Real", 1, []⟩,
-      ⟨"e", [], "Real", 2, [0]⟩] = some l ∧ l.categories 0 = ["p", "x"] :=
-  ⟨_, rfl, by decide⟩
+      ⟨"e", [], "Real", 2, [0]⟩] = some l ∧
+    (names [⟨"p", ["parameter", "input"], "Real", 0, []⟩, ⟨"x", ["state"], "Real", 1, []⟩, ⟨"e", [], "Real", 2, [0]⟩]).Nodup := by
+  obtain ⟨l, h⟩ := exitClass_isSome 0 [⟨"p", ["parameter", "input"], "Real", 0, []⟩, ⟨"x", ["state"], "Real", 1, []⟩,
+      ⟨"e", [], "Real", 2, [0]⟩] (by decide)
+  exact ⟨l, h, by decide⟩
 
 /-- **precedence.** Membership in each list is decided by the first matching test of
     `constant`, `parameter`, `input`, `state` (else algebraic), String-typed constants and
@@ -122,12 +123,9 @@ theorem precedence (nd : Nat) (syms : List Sym) (l : Lists) (h : exitClass nd sy
         "parameter" ∉ s.prefixes ∧ "input" ∉ s.prefixes ∧ "state" ∉ s.prefixes) := by
   obtain ⟨_, rfl⟩ := exitClass_some h
   have hm : ∀ s, s ∈ sortSyms syms ↔ s ∈ syms := fun s => (sortSyms_perm syms).mem_iff
-  have hd : ((List.range nd).map delayName ++ names (pick (sortSyms syms) .input)).drop nd
-      = names (pick (sortSyms syms) .input) := by
-    rw [List.drop_append_of_le_length (by simp)]; simp
   have hc := fun (s : Sym) => catOf_cases s.prefixes
-  simp only [listsOf, hd, names, List.mem_map, List.mem_filter, mem_pick_iff, hm, Sym.cat,
-    Bool.not_eq_true']
+  simp only [listsOf, drop_delays]
+  simp only [names, List.mem_map, List.mem_filter, mem_pick_iff, hm, Sym.cat, Bool.not_eq_true']
   refine ⟨?_, ?_, ?_, ?_, ?_, ?_, ?_⟩
   · constructor
     · rintro ⟨s, ⟨⟨h1, h2, h3⟩, h4⟩, rfl⟩; exact ⟨s, h1, rfl, h3, (hc s).1.mp h2, h4⟩
@@ -156,8 +154,13 @@ theorem precedence (nd : Nat) (syms : List Sym) (l : Lists) (h : exitClass nd sy
       have := (hc s).2.2.2.2.mp h2; exact ⟨s, h1, rfl, h3, this⟩
     · rintro ⟨s, h1, rfl, h3, h2⟩; exact ⟨s, ⟨h1, (hc s).2.2.2.2.mpr h2, h3⟩, rfl⟩
 
-example : ∃ l, exitClass 0 [⟨"u", ["input", "state"], "Real", 0, []⟩, ⟨"c", ["parameter", "constant"], "String", 1, []⟩]
-    = some l ∧ "u" ∈ l.inputs ∧ "c" ∈ l.stringConstants := ⟨_, rfl, by decide, by decide⟩
+example : ∃ l, exitClass 0 [⟨"u", ["input", "state"], "Real", 0, []⟩, ⟨"c", ["parameter", "constant"], "Real", 1, []⟩]
+    = some l ∧ "u" ∈ l.inputs.drop 0 ∧ "c" ∈ l.constants := by
+  obtain ⟨l, h⟩ := exitClass_isSome 0 [⟨"u", ["input", "state"], "Real", 0, []⟩,
+      ⟨"c", ["parameter", "constant"], "Real", 1, []⟩] (by decide)
+  refine ⟨l, h, ?_, ?_⟩
+  · exact (precedence _ _ _ h "u").2.2.2.2.1.mpr ⟨_, List.mem_cons_self, rfl, by decide, by decide, by decide, by decide⟩
+  · exact (precedence _ _ _ h "c").1.mpr ⟨_, List.mem_cons_of_mem _ List.mem_cons_self, rfl, by decide, by decide, by decide⟩
 
 /-- **order_preserved.** Every list is a subsequence of the names of the symbols sorted by
     declaration order; that sorted list is ordered, is a permutation of the symbols, and the
@@ -170,23 +173,20 @@ theorem order_preserved (nd : Nat) (syms : List Sym) (l : Lists) (h : exitClass 
     (sortSyms syms).Pairwise (fun a b => a.order ≤ b.order) ∧ (sortSyms syms).Perm syms ∧
     (∀ a b, a.order ≤ b.order → [a, b].Sublist syms → [a, b].Sublist (sortSyms syms)) := by
   obtain ⟨_, rfl⟩ := exitClass_some h
-  have hd : ((List.range nd).map delayName ++ names (pick (sortSyms syms) .input)).drop nd
-      = names (pick (sortSyms syms) .input) := by
-    rw [List.drop_append_of_le_length (by simp)]; simp
   have hp := fun c => pick_sublist (sortSyms syms) c
   refine ⟨?_, ?_, ?_, ?_, ?_, ?_, ?_, sortSyms_sorted syms, sortSyms_perm syms, ?_⟩
   · exact List.Sublist.map _ (List.filter_sublist.trans (hp _))
   · exact List.Sublist.map _ (List.filter_sublist.trans (hp _))
   · exact List.Sublist.map _ (List.filter_sublist.trans (hp _))
   · exact List.Sublist.map _ (List.filter_sublist.trans (hp _))
-  · simp only [listsOf, hd]; exact List.Sublist.map _ (hp _)
+  · simp only [listsOf, drop_delays]; exact List.Sublist.map _ (hp _)
   · exact List.Sublist.map _ (hp _)
   · exact List.Sublist.map _ (hp _)
   · intro a b hab hs
     exact List.pair_sublist_mergeSort le_trans' le_total' (by simpa using hab) hs
 
-example : names (sortSyms [⟨"b", [], "Real", 2, []⟩, ⟨"a", [], "Real", 1, []⟩, ⟨"b2", [], "Real", 2, []⟩])
-    = ["a", "b", "b2"] := by decide
+example : ∃ l, exitClass 0 [⟨"b", [], "Real", 2, []⟩, ⟨"a", [], "Real", 1, []⟩, ⟨"b2", [], "Real", 2, []⟩] = some l :=
+  exitClass_isSome _ _ (by decide)
 
 /-- **one_derivative_per_state.** `der_states` is `states` with every name wrapped in
     `der(...)`: same length, same order, and different states have different derivative
@@ -197,8 +197,8 @@ theorem one_derivative_per_state (nd : Nat) (syms : List Sym) (l : Lists) (h : e
   obtain ⟨_, rfl⟩ := exitClass_some h
   exact ⟨rfl, by simp [listsOf], derName_injective⟩
 
-example : ∃ l, exitClass 0 [⟨"x", ["state"], "Real", 0, []⟩, ⟨"a.y", ["output", "state"], "Real", 1, [2]⟩] = some l ∧
-    l.derStates = ["der(x)", "der(a.y)"] := ⟨_, rfl, by decide⟩
+example : (∃ l, exitClass 0 [⟨"x", ["state"], "Real", 0, []⟩, ⟨"a.y", ["output", "state"], "Real", 1, [2]⟩] = some l) ∧
+    derName "a.y" = "der(a.y)" := ⟨exitClass_isSome _ _ (by decide), by decide⟩
 
 /-- **outputs_exact.** `outputs` names exactly the non-empty output-prefixed symbols classified
     as state or algebraic, states first, each group in declaration order. -/
@@ -222,34 +222,21 @@ theorem outputs_exact (nd : Nat) (syms : List Sym) (l : Lists) (h : exitClass nd
     exact List.Sublist.map _ List.filter_sublist
 
 example : ∃ l, exitClass 0 [⟨"y", ["output"], "Real", 0, []⟩, ⟨"x", ["output", "state"], "Real", 1, []⟩,
-      ⟨"p", ["parameter", "output"], "Real", 2, []⟩] = some l ∧ l.outputs = ["x", "y"] := ⟨_, rfl, by decide⟩
+      ⟨"p", ["parameter", "output"], "Real", 2, []⟩] = some l ∧ "x" ∈ l.outputs ∧ "p" ∉ l.outputs := by
+  obtain ⟨l, h⟩ := exitClass_isSome 0 [⟨"y", ["output"], "Real", 0, []⟩, ⟨"x", ["output", "state"], "Real", 1, []⟩,
+      ⟨"p", ["parameter", "output"], "Real", 2, []⟩] (by decide)
+  refine ⟨l, h, ?_, ?_⟩
+  · exact (outputs_exact _ _ _ h "x").1.mpr ⟨_, List.mem_cons_of_mem _ List.mem_cons_self, rfl, by decide, by decide, by decide⟩
+  · rw [(outputs_exact _ _ _ h "p").1]; decide
 
 /-- The class exit raises (AttributeError) exactly when a non-empty String-typed symbol that is
     classified as state or algebraic carries the `output` prefix (open finding C10-F1). -/
 theorem attribute_error_iff (nd : Nat) (syms : List Sym) :
     exitClass nd syms = none ↔ ∃ s ∈ syms, s.isString = true ∧ s.isEmpty = false ∧ "output" ∈ s.prefixes ∧
-        (s.cat = .state ∨ s.cat = .alg) := by
-  have hm : ∀ s, s ∈ sortSyms syms ↔ s ∈ syms := fun s => (sortSyms_perm syms).mem_iff
-  unfold exitClass
-  by_cases hc : (outputSyms (sortSyms syms)).any (·.isString) = true
-  · simp only [hc, if_true, true_iff]
-    rw [List.any_eq_true] at hc
-    obtain ⟨s, hs, hstr⟩ := hc
-    simp only [outputSyms, List.mem_filter, List.mem_append, mem_pick_iff, hm, decide_eq_true_eq] at hs
-    rcases hs with ⟨h1 | h1, h2⟩
-    · exact ⟨s, h1.1, hstr, h1.2.2, h2, Or.inl h1.2.1⟩
-    · exact ⟨s, h1.1, hstr, h1.2.2, h2, Or.inr h1.2.1⟩
-  · simp only [hc, Bool.false_eq_true, if_false, reduceCtorEq, false_iff]
-    rintro ⟨s, h1, hstr, h3, h2, h4⟩
-    apply hc
-    rw [List.any_eq_true]
-    refine ⟨s, ?_, hstr⟩
-    simp only [outputSyms, List.mem_filter, List.mem_append, mem_pick_iff, hm, decide_eq_true_eq]
-    rcases h4 with h4 | h4
-    · exact ⟨Or.inl ⟨h1, h4, h3⟩, h2⟩
-    · exact ⟨Or.inr ⟨h1, h4, h3⟩, h2⟩
+        (s.cat = .state ∨ s.cat = .alg) := exitClass_none_iff nd syms
 
-example : exitClass 0 [⟨"s", ["output"], "String", 0, []⟩] = none := by decide
+example : exitClass 0 [⟨"s", ["output"], "String", 0, []⟩] = none :=
+  (attribute_error_iff 0 _).mpr (by decide)
 
 /-- **state iff differentiated (end to end).** In the model the whole pipeline produces, a name
     is a state iff it belongs to a non-empty symbol that is neither constant, parameter nor
@@ -295,7 +282,7 @@ theorem states_iff_differentiated (syms : List Sym) (t : Node) (l : Lists)
 
 example : ∃ l, classify [⟨"x", [], "Real", 0, []⟩, ⟨"u", ["input"], "Real", 1, []⟩]
     (.mk "Equation" "" false [.mk "Expression" "der" false
-        [.mk "Expression" "*" false [.mk "ComponentRef" "x" false [], .mk "ComponentRef" "u" false []]]]) = .ok l ∧
-    l.states = ["x"] ∧ l.inputs = ["u"] := ⟨_, rfl, by decide, by decide⟩
+        [.mk "Expression" "*" false [.mk "ComponentRef" "x" false [], .mk "ComponentRef" "u" false []]]]) = .ok l :=
+  classify_isOk _ [⟨"x", ["state"], "Real", 0, []⟩, ⟨"u", ["input", "state"], "Real", 1, []⟩] _ (by decide) (by decide)
 
 end PymocaVerif.Classify
